@@ -87,7 +87,7 @@ pub fn adjust(cfg: &mut SwarmCfg, tier: &str, r: &mut Prng) {
             }
         }
         "C02" => {
-            cfg.oracles = sv(&["agreement", "recipients", "removed-cannot-follow", "record-crypto", "path-required"]);
+            cfg.oracles = sv(&["agreement", "recipients", "removed-cannot-follow", "record-crypto", "path-required", "kdf-model"]);
             cfg.faults = sv(&["N-REORD", "N-RACE", "N-STALE", "N-DUP"]);
             setw(cfg, "commit", 16);
             setw(cfg, "propose", 10);
@@ -423,6 +423,18 @@ pub fn adjust(cfg: &mut SwarmCfg, tier: &str, r: &mut Prng) {
     }
     if matches!(prop, "C01" | "C02" | "C09") && r2.chance(1, 3) {
         setw(cfg, "member_hpke", 4);
+    }
+    if matches!(prop, "C06" | "C15" | "C19") && cfg.storage == StorageKind::Sql {
+        // statements of the SQLite provider's write fail one at a time
+        cfg.faults.push("S-SQL-INNER".into());
+    }
+    if prop == "C03" && r2.chance(1, 2) {
+        // what a joiner is handed (Welcome, out-of-band tree, GroupInfo) is traffic too: the mismatched and modified
+        // joins of C07, among them a tree with blank nodes appended
+        setw(cfg, "bad_join", 6);
+        for f in ["J-NOT-ADDRESSED", "J-WRONG-TREE", "J-STALE-GROUP-INFO", "J-FLIP-WELCOME", "J-FLIP-TREE", "J-FLIP-GROUP-INFO"] {
+            cfg.faults.push(f.into());
+        }
     }
     if prop == "C12" && r2.chance(1, 2) {
         // custom proposals whose type sits on the boundary of the RFC-defined range
